@@ -15,7 +15,7 @@ import ast
 
 from .. import terms as T
 from ..terms import const
-from ..rules import (P_, run, ret_paths, raise_paths, exc_name, bind_call_args, default_of, strip_trivial)
+from ..rules import (val_eval, UNKNOWN, P_, run, ret_paths, raise_paths, exc_name, bind_call_args, default_of, strip_trivial)
 from ..loader import AnalysisError
 
 EXPLANATION = (
@@ -79,18 +79,30 @@ def rule_registry(ctx):
                     acc, {k: T.show(v) for k, v in want.items()}, {k: T.show(v) for k, v in kws.items()}), node=p.node)
             else:
                 ctx.holds('R1', '.%s binds %s' % (acc, {k: T.show(v) for k, v in want.items()}))
-    # ix toggles
+    # ix toggles - relative to the mode in force: the array's own _indexing when it has one, the 'indexing.by' option otherwise
+    # ("for both values of the 'indexing.by' option (under which .loc / .iloc keep their meaning and .ix toggles)")
     fi = P.lookup(P.cls(BASES + 'AbstractHasAxes'), 'ix').value['fget']
-    for cur, want in (('position', 'label'), ('label', 'position'), (None, 'position')):
-        atom = T.mkcmp('==', ('attr', SELF, '_indexing'), const('position'))
-        ev = run(ctx, fi, facts={atom: cur == 'position'})
-        for p in ev.paths:
-            kws = indexable_args(p.value) if p.kind == 'return' else None
-            if kws is None or kws.get('indexing') != const(want) or set(kws) != {'indexing'}:
-                ctx.violated('R1', fi, 'return ' + T.show(p.value), '.ix must toggle: with _indexing=%r it must index by %s'
-                             % (cur, want), node=p.node)
-            else:
-                ctx.holds('R1', '.ix with _indexing=%r -> %s' % (cur, want))
+    ev = run(ctx, fi)
+    opt = [t for p in ev.paths for src in [p.value] + [g for g, _ in p.guards] for t in T.subterms(src) if t[0] == 'call' and T.call_name(t) == 'get_option' and t[2] == (const('indexing.by'),)]
+    for own in (None, 'label', 'position'):
+        for by in ('label', 'position'):
+            cur = own or by
+            want = 'label' if cur == 'position' else 'position'
+            env = {('attr', SELF, '_indexing'): own}
+            for o in opt:
+                env[o] = by
+            for p in ev.paths:
+                kws = indexable_args(p.value) if p.kind == 'return' else None
+                got = val_eval(kws['indexing'], env) if kws and set(kws) == {'indexing'} else None
+                # guards of the path must be decided too
+                live = all(val_eval(g, env) is pol for g, pol in p.guards)
+                if not live and all(val_eval(g, env) is not UNKNOWN for g, pol in p.guards):
+                    continue
+                if got != want:
+                    ctx.violated('R1', fi, 'return ' + T.show(p.value)[:200], ".ix must toggle: with _indexing=%r and indexing.by=%r the mode in force is %r, so .ix must "
+                                 "index by %s (got %s)" % (own, by, cur, want, 'undecided' if got is UNKNOWN or got is None else got), node=p.node)
+                else:
+                    ctx.holds('R1', '.ix with _indexing=%r, indexing.by=%r -> %s' % (own, by, want))
     # sel / isel
     for name, acc in (('sel', 'loc'), ('isel', 'iloc')):
         fi = ctx.fn(BASES + 'AbstractHasAxes.' + name)
